@@ -328,7 +328,7 @@ func (ex *Exec) call(fr *Frame, st *State, instr ssa.Value, com *ssa.CallCommon,
 		ex.callers = ex.callers[:len(ex.callers)-1]
 		return outs
 	}
-	if fn.Pkg != nil && ex.prog.isRepoPkg(fn.Pkg.Pkg.Path()) && c == nil && autoInlinable(fn) {
+	if fn.Pkg != nil && ex.prog.isRepoPkg(fn.Pkg.Pkg.Path()) && c == nil && autoInlinable(fn) && !ex.onStack(fn, fr) && len(ex.callers) < 10 {
 		// a small loop-free helper without a contract of its own is part of its caller: executed from its real body
 		// (keeps harmless refactorings - extracting a helper - from losing the proof; listed under inlined functions)
 		ex.inlined[name] = true
@@ -338,11 +338,20 @@ func (ex *Exec) call(fr *Frame, st *State, instr ssa.Value, com *ssa.CallCommon,
 		return outs
 	}
 	if fn.Pkg != nil && ex.prog.isRepoPkg(fn.Pkg.Pkg.Path()) {
-		ex.havoc("call of repository function " + shortFn(name) + " without contract: module state forgotten")
-		for g := range st.ghost {
-			st.ghost[g] = ex.u.Fresh("havoc."+g, ex.ghostSort(g))
+		if why := ex.prog.mayChangeState(fn, ex.cs); why != "" {
+			ex.havoc("call of repository function " + shortFn(name) + " without contract: module state forgotten (" + why + ")")
+			for g := range st.ghost {
+				st.ghost[g] = ex.u.Fresh("havoc."+g, ex.ghostSort(g))
+			}
+			st.wrote = true
+		} else {
+			// nothing the helper can reach writes a store, calls a bank mutator or a contracted function with a
+			// modifies clause: module state is kept, the results (and pointees of pointer arguments) are unknown
+			ex.havoc("call of repository function " + shortFn(name) + " without contract: reaches no state change (closed-world call graph), results unknown")
 		}
-		st.wrote = true
+		if ex.ct != nil && ex.ct.NoPanic {
+			ex.addObl("safe", "callee-may-panic-"+sanitizeLabel(shortFn(name)), ex.ct.Props, st, "false", ex.pos(in), "nopanic: the callee "+shortFn(name)+" has no contract and is too large to be executed from its body")
+		}
 	} else {
 		ex.havoc("call of " + shortFn(name) + " (no contract)")
 	}
@@ -672,7 +681,20 @@ func (ex *Exec) copyModel(st *State, com *ssa.CallCommon, args []Val) []Outcome 
 	return []Outcome{{st: st, results: []Val{{T: n}}}}
 }
 
-// autoInlinable: loop-free repository functions of at most 80 SSA instructions.
+// onStack: fn is being executed already (recursion is never unfolded)
+func (ex *Exec) onStack(fn *ssa.Function, cur *Frame) bool {
+	if cur != nil && cur.fn == fn {
+		return true
+	}
+	for _, f := range ex.callers {
+		if f.fn == fn {
+			return true
+		}
+	}
+	return false
+}
+
+// autoInlinable: loop-free repository functions of at most 400 SSA instructions.
 func autoInlinable(fn *ssa.Function) bool {
 	if len(fn.Blocks) == 0 || len(findLoops(fn).headers) > 0 {
 		return false
@@ -681,5 +703,5 @@ func autoInlinable(fn *ssa.Function) bool {
 	for _, b := range fn.Blocks {
 		n += len(b.Instrs)
 	}
-	return n <= 80
+	return n <= 400
 }
